@@ -1176,6 +1176,7 @@ func (ft *FuncTr) block(b *ssa.BasicBlock) error {
 			}
 			if !am.whole && len(am.locs) == 0 {
 				ft.h.noteFreshFrame(before, after, preNext)
+				ft.elemsFreshFrame(preAt, before, after, preNext)
 			} else if !am.whole {
 				if c := ft.locsEmptyCond(am.locs); c.S != "false" {
 					ft.h.noteFreshFrameCond(before, after, preNext, c)
@@ -1744,3 +1745,16 @@ func (ft *FuncTr) instrGuarded(b *ssa.BasicBlock, st *State, at *Term, in ssa.In
 }
 
 func deferFlag(d *ssa.Defer) string { return fmt.Sprintf("$defer_%d_%d", d.Block().Index, int(d.Pos())) }
+
+// elemsFreshFrame: a fresh-only frame keeps the element set of every slice over an array allocated before it
+// (derived from the frame; stated because deriving it through the Skolem index function is slow).
+func (ft *FuncTr) elemsFreshFrame(at *Term, before, after, next *Term) {
+	srt := before.Sort
+	if srt == nil || srt.K != SPtr || !elemsSupported(srt.V) || !ft.elemsEager[srt.V.Mangle()] {
+		return
+	}
+	sv := &Term{"es", SSlc}
+	e1 := ft.h.elemsOf(after, sv, srt.V)
+	e0 := ft.h.elemsOf(before, sv, srt.V)
+	ft.assume(at, Forall([]Bound{{"es", SSlc}}, Implies(Or(IsNil(SlcArr(sv)), Lt(PObjID(SlcArr(sv)), next)), Eq(e1, e0)), []*Term{e1}))
+}
